@@ -209,40 +209,69 @@ def readPrefixCodes : S Unit := fun s =>
   | (.ok s', rd') => (.ok (), { s' with rd := rd' })
   | (.error e, rd') => (.error e, { s with rd := rd' })
 
-/-- `readBlockHeader`. The recursive call for ISLASTEMPTY is `finishStream`. -/
+/-- what `readBlockHeader` reads before it branches. -/
+inductive Hdr where
+  | lastEmpty                                                -- ISLAST, ISLASTEMPTY
+  | metadata (last : Bool) (skipLen : Nat)                   -- MNIBBLES = 3: MSKIPLEN bytes follow the padding
+  | data (last : Bool) (blkLen : Nat) (uncompressed : Bool)  -- MLEN, ISUNCOMPRESSED
+deriving Repr, DecidableEq, Inhabited
+
+/-- `c && ReadBits(1) == 1` (ISLASTEMPTY is read only after ISLAST, ISUNCOMPRESSED only when not last). -/
+def readFlagIf (c : Bool) : M Bool := if c then (· == 1) <$> readBits 1 else pure false
+
+/-- MSKIPLEN from MSKIPBYTES bytes. -/
+def readSkipLen (skipBytes : Nat) : M Nat :=
+  if skipBytes > 0 then do
+    let v ← readBits (skipBytes * 8)
+    if skipBytes > 1 ∧ v >>> ((skipBytes - 1) * 8) = 0 then panic .corrupted   -- not the shortest form
+    else pure (v + 1)
+  else pure 0
+
+/-- MLEN from `nibbles` nibbles. -/
+def readMLen (nibbles : Nat) : M Nat := do
+  let blkLen ← readBits (nibbles * 4)
+  if nibbles > 4 ∧ blkLen >>> ((nibbles - 1) * 4) = 0 then panic .corrupted     -- not the shortest form
+  else pure (blkLen + 1)
+
+/-- the reads of `readBlockHeader` (ISLAST .. ISUNCOMPRESSED) with their checks, in the order of the Go code. -/
+def readHdr : M Hdr := do
+  let last := (← readBits 1) == 1
+  let empty ← readFlagIf last
+  if empty then pure .lastEmpty
+  else do
+    let nibbles := (← readBits 2) + 4
+    if nibbles = 7 then do
+      if (← readBits 1) == 1 then panic .corrupted                      -- reserved bit
+      else do
+        let skipBytes ← readBits 2
+        let skipLen ← readSkipLen skipBytes
+        pure (.metadata last skipLen)
+    else do
+      let blkLen ← readMLen nibbles
+      let uncompressed ← readFlagIf (!last)
+      pure (.data last blkLen uncompressed)
+
+/-- `readBlockHeader`: the header fields (`readHdr`), then the branch.  The recursive call for
+    ISLASTEMPTY is `finishStream`. -/
 def readBlockHeader : S Unit := do
   if (← getS).last then finishStream
   else do
-    let last := (← liftR (readBits 1)) == 1
-    modS fun s => { s with last := last }
-    let empty ← if last then (· == 1) <$> liftR (readBits 1) else pure false
-    if empty then finishStream
-    else do
-      let nibbles := (← liftR (readBits 2)) + 4
-      if nibbles = 7 then do
-        if (← liftR (readBits 1)) == 1 then spanic .corrupted          -- reserved bit
-        else do
-          let skipBytes ← liftR (readBits 2)
-          let skipLen ←
-            if skipBytes > 0 then do
-              let v ← liftR (readBits (skipBytes * 8))
-              if skipBytes > 1 ∧ v >>> ((skipBytes - 1) * 8) = 0 then spanic .corrupted   -- not the shortest form
-              else pure (v + 1)
-            else pure 0
-          if (← liftR readPads) > 0 then spanic .corrupted
-          else do
-            modS fun s => { s with blkLen := skipLen }
-            readMetaData
+    match ← liftR readHdr with
+    | .lastEmpty => do
+      modS fun s => { s with last := true }
+      finishStream
+    | .metadata last skipLen => do
+      modS fun s => { s with last := last }
+      if (← liftR readPads) > 0 then spanic .corrupted
       else do
-        let blkLen ← liftR (readBits (nibbles * 4))
-        if nibbles > 4 ∧ blkLen >>> ((nibbles - 1) * 4) = 0 then spanic .corrupted       -- not the shortest form
-        else do
-          modS fun s => { s with blkLen := blkLen + 1 }
-          let uncompressed ← if !last then (· == 1) <$> liftR (readBits 1) else pure false
-          if uncompressed then do
-            if (← liftR readPads) > 0 then spanic .corrupted
-            else readRawData
-          else readPrefixCodes
+        modS fun s => { s with blkLen := skipLen }      -- blkLen tracks the metadata bytes
+        readMetaData
+    | .data last blkLen uncompressed => do
+      modS fun s => { s with last := last, blkLen := blkLen }
+      if uncompressed then do
+        if (← liftR readPads) > 0 then spanic .corrupted
+        else readRawData
+      else readPrefixCodes
 
 /-- `readStreamHeader`. -/
 def readStreamHeader : S Unit := do
